@@ -82,6 +82,10 @@ BUILTIN_RAISES = [
     ('user-exception-args-raises', "class MyError(Exception):\n    @property\n    def args(self):\n        raise RuntimeError('no args')\nraise MyError('mine')"),
     ('user-exception-getattr-raises', "class MyError(Exception):\n    def __getattr__(self, name):\n        raise RuntimeError('no attribute ' + name)\nraise MyError('mine')"),
     ('user-exception-metaclass-name', "class Meta(type):\n    def __str__(cls):\n        raise RuntimeError('no class str')\n    __repr__ = __str__\nclass MyError(Exception, metaclass=Meta):\n    pass\nraise MyError('mine')"),
+    ('user-exception-str-replaces-stdout', "import sys\nclass MyError(Exception):\n    def __str__(self):\n        sys.stdout = None\n        return 'mine'\nraise MyError('mine')"),
+    ('user-exception-str-replaces-sleep', "import time\nclass MyError(Exception):\n    def __str__(self):\n        time.sleep = len\n        return 'mine'\nraise MyError('mine')"),
+    ('user-exception-str-imports', "class MyError(Exception):\n    def __str__(self):\n        import colorsys, sndhdr\n        return 'mine'\nraise MyError('mine')"),
+    ('user-exception-str-prints', "class MyError(Exception):\n    def __str__(self):\n        print('describing')\n        return 'mine'\nraise MyError('mine')"),
     ('exception-after-stdout-closed', "import sys\nsys.stdout.close()\nx = 1 / 0"),
     ('exception-after-stdout-replaced', "import sys\nsys.stdout = None\nx = 1 / 0"),
     ('exception-deep-frames', "def d0(n):\n    if n == 0:\n        return 1 // 0\n    return d0(n - 1)\nd0(12)"),
